@@ -250,6 +250,12 @@ def obligations(tier):
     # general-EOS driver: mirrored problem on the same path (tables by the ODE contract, small tables)
     from . import geos
     obs += geos.obligations('C09', tier, patterns=('RCR',) if tier == 'quick' else ('RCR', 'RCS', 'SCR', 'SCS'), mirror=True)
+    # ... and the explicit form of what the driver assembles on each side (same obligations as C04): every fan node and
+    # wave position carries the state and the characteristic speed of ITS OWN side's table and gamma.  An output of that
+    # form is mirror-covariant by inspection; a side treated with the other side's parameters is refuted here directly,
+    # where the two-run form above runs out of paths before it finds a model.
+    obs += [o for o in geos.obligations('C09', tier, patterns=('RCR',) if tier == 'quick' else ('RCR', 'RCS', 'SCR'))
+            if 'ode_contract' not in o.id]
     # Kenamond 1: any rotation, reflection and translation; Kenamond 3 / DSD: rotations and reflections about the
     # origin (obstacle / tube centre); Kenamond 2: motions that fix the detonator axis (last coordinate)
     deep = (tier == 'thorough')
